@@ -74,6 +74,9 @@ type UFunDecl struct {
 	Name string
 	Args []Sort
 	Ret  Sort
+	// Reads: for a state-dependent function ("sfun"), the heap maps its value depends on; an application is
+	// an uninterpreted function of its arguments and of the current versions of these maps
+	Reads []string
 }
 
 type Axiom struct {
@@ -105,7 +108,7 @@ var tagRe = regexp.MustCompile(`\s+\[(C[0-9]{2,3}(?:\s*,\s*C[0-9]{2,3})*)\]\s*$`
 var clauseKeywords = map[string]bool{
 	"func": true, "requires": true, "ensures": true, "modifies": true, "allocates": true,
 	"loop": true, "pure": true, "trusted": true, "inline": true, "tags": true, "spec": true,
-	"ufun": true, "axiom": true, "ghost": true, "package": true, "lib": true, "nopanic": true, "arith": true,
+	"ufun": true, "sfun": true, "axiom": true, "ghost": true, "package": true, "lib": true, "nopanic": true, "arith": true,
 	"purepkg": true, "purefn": true, "effect": true, "sameas": true, "preserves": true, "objinv": true, "implements": true, "assumes": true,
 }
 
@@ -262,6 +265,37 @@ func (db *SpecDB) LoadFile(path, defaultPkg string, lib bool) error {
 				continue
 			}
 			db.Specs[name] = &SpecFn{Name: name, Params: params, Body: e, Src: src}
+		case kw == "sfun":
+			// sfun name(Int, Int): Int reads key, key, ...
+			ri := strings.Index(rest, " reads ")
+			if ri < 0 {
+				fail(l.no, "sfun needs a reads list")
+				continue
+			}
+			head, reads := rest[:ri], rest[ri+7:]
+			op := strings.Index(head, "(")
+			cp := strings.LastIndex(head, ")")
+			col := strings.LastIndex(head, ":")
+			if op < 0 || cp < op || col < cp {
+				fail(l.no, "sfun malformed")
+				continue
+			}
+			d := &UFunDecl{Name: strings.TrimSpace(head[:op]), Ret: Sort(strings.TrimSpace(head[col+1:]))}
+			for _, a := range strings.Split(head[op+1:cp], ",") {
+				if a = strings.TrimSpace(a); a != "" {
+					d.Args = append(d.Args, Sort(a))
+				}
+			}
+			for _, k := range strings.Split(reads, ",") {
+				if k = strings.TrimSpace(k); k != "" {
+					d.Reads = append(d.Reads, k)
+				}
+			}
+			if len(d.Reads) == 0 {
+				fail(l.no, "sfun needs a non-empty reads list")
+				continue
+			}
+			db.UFuns[d.Name] = d
 		case kw == "ufun":
 			// ufun name(Int, Int): Int
 			op := strings.Index(rest, "(")
